@@ -51,6 +51,9 @@ structure Q where
   hasCtl : Bool := true
   /-- control element name -/
   tag : Str := "input".toList
+  /-- `self.bind` is not `None`: the type-table entry has a `bind` or the row has a bind column (the plain
+      `trigger` type without logic columns is the one control type that has none) -/
+  hasBind : Bool := true
 deriving Repr, DecidableEq, Inhabited
 
 inductive El where
@@ -203,7 +206,8 @@ def body (tbl : List Trig) (pre : Path) : List El → List Body
   | .rep n ks :: rest =>
     .rep (pre ++ [n]) (body tbl (pre ++ [n]) ks) (helperSets dyn sub (pre ++ [n]) ks) :: body tbl pre rest
 
-/-- `<bind>` of a question: nodeset and `calculate` (omitted when a trigger is set) -/
+/-- `<bind>` of a question: nodeset and `calculate` (omitted when a trigger is set); no `<bind>` at all when
+    the question has no bind dict (`xml_bindings` returns early, survey_element.py 551-553) -/
 structure Bind where
   path : Path
   calculate : Option Str
@@ -215,7 +219,7 @@ def qBind (pre : Path) (d : Q) : Bind :=
 
 def binds (pre : Path) : List El → List Bind
   | [] => []
-  | .q d :: rest => qBind sub pre d :: binds pre rest
+  | .q d :: rest => (if d.hasBind then [qBind sub pre d] else []) ++ binds pre rest
   | .grp n ks :: rest => binds (pre ++ [n]) ks ++ binds pre rest
   | .rep n ks :: rest => binds (pre ++ [n]) ks ++ binds pre rest
 
@@ -355,6 +359,23 @@ def check (els : List El) : Option Err :=
 
 end
 
+/-! ## `xls2json`: the default of a `photo` question (xls2json.py 213-218, 1233-1237) -/
+
+def imagePrefix : Str := "jr://images/".toList
+
+/-- `process_image_default`: prefix the file name unless the cell already mentions `jr://images/` -/
+def processImageDefault (v : Str) : Str := if isInfix imagePrefix v then v else imagePrefix ++ v
+
+/-- what `workbook_to_json` stores for one question row (`if question_type == "photo"` … `if row.get("default")`) -/
+def prepQ (d : Q) : Q :=
+  if d.type == "photo".toList && !d.default.isEmpty then { d with default := processImageDefault d.default } else d
+
+def prep : List El → List El
+  | [] => []
+  | .q d :: rest => .q (prepQ d) :: prep rest
+  | .grp n ks :: rest => .grp n (prep ks) :: prep rest
+  | .rep n ks :: rest => .rep n (prep ks) :: prep rest
+
 /-! ## the whole mechanism -/
 
 structure Out where
@@ -386,6 +407,10 @@ def run (dyn : Q → Bool) (sub : Path → Str → Str) (root : Str) (els : List
   match check dyn els with
   | some e => .error e
   | none => .ok (gen dyn sub root els)
+
+/-- from the rows' cells: `xls2json` stage (`prep`), then the element tree's mechanism -/
+def runSheet (dyn : Q → Bool) (sub : Path → Str → Str) (root : Str) (els : List El) : Except Err Out :=
+  run dyn sub root (prep els)
 
 /-! ## observation: what property C10 talks about, read off an output -/
 
